@@ -45,14 +45,18 @@ PROGS = ['.', '.a', '.[0]', '.[]', '.a.b', 'keys', 'length', 'type', 'map(.)', '
          'input_line_number', 'ltrimstr(1)', 'splits', 'getpath(1)', 'significand', 'halt', 'eval(".")', 'builtins|length', 'modulemeta']
 QUICK_PROGS = PROGS[:40] + PROGS[40::3]
 
-STR = ["a", "a b", "", "true", "12", "é", "a: b", "x\ny", "0x1F", "~", " a", "😀", "\"", "'", "null", "1e3", "- a", "#a", "a,b", "[a]"]
+STR = ["a", "a b", "", "true", "12", "é", "a: b", "x\ny", "0x1F", "~", " a", "😀", "\"", "'", "null", "1e3", "- a", "#a", "a,b", "[a]",
+       # a quote followed by what looks like structure: in JSON (and double-quoted flow YAML) the quote is escaped, and
+       # a scanner that mis-skips the escape sees `"...": value` / a closing quote where there is none
+       "15\": laptop", "a\":b", "x\": [1", "a\\\": b", "\"}", "\", \"b"]
+NEWSTR = 6
 LEAVES = [("str", s) for s in STR] + [("int", 0), ("int", 7), ("int", -3), ("int", 123456789), ("bool", True), ("bool", False), ("null",)]
 KEYS = ["a b", "", "true", "12", "é", "a: b", "0x1F", "~", " a", "null", "a,b", "k\"", "'", "#a", "- a"]
 
 
 def trees(tier):
     quick = tier == "quick"
-    leaves = LEAVES if not quick else [LEAVES[i] for i in (0, 2, 3, 4, 5, 7, 8, 9, 10, 12, 13)] + LEAVES[len(STR):len(STR) + 2] + LEAVES[-3:]
+    leaves = LEAVES if not quick else [LEAVES[i] for i in (0, 2, 3, 4, 5, 7, 8, 9, 10, 12, 13, len(STR) - NEWSTR, len(STR) - NEWSTR + 1, len(STR) - NEWSTR + 3)] + LEAVES[len(STR):len(STR) + 2] + LEAVES[-3:]
     ts = []
     for a in leaves:
         ts += [a, ("seq", [a]), ("map", [("a", a)])]
